@@ -18,7 +18,7 @@ Definition nat_to_string (n : nat) : string := nat_to_string_aux (S n) n "".
 Definition r_member (m : member) : toks :=
   match m with MNamed s => [TI s] | MIndex n => [TL (nat_to_string n)] end.
 
-(** `FieldEntry::make_ident(prefix)` *)
+(** `FieldEntry::make_ident(prefix)`: by field position (callers pass [MIndex (fl_index f)]) *)
 Definition make_ident (prefix : string) (m : member) : string :=
   match m with
   | MNamed s => prefix +++ "_" +++ unraw s
@@ -105,7 +105,7 @@ Definition r_clone_struct (name : string) (sh : shape) (fs : list fld) : toks :=
                               TP "&" :: self_dot "__source" (fl_member f)]) fs)).
 
 Definition binders (prefix : string) (fs : list fld) : list toks :=
-  map (fun f => [TI (make_ident prefix (fl_member f))]) fs.
+  map (fun f => [TI (make_ident prefix (MIndex (fl_index f)))]) fs.
 
 (** `make_pat_with_self_path` *)
 Definition make_pat (self_path : toks) (prefix : string) (arm : string * shape * list fld) : toks :=
@@ -126,14 +126,14 @@ Definition r_clone_enum (vs : list (string * shape * list fld)) : toks :=
     let '(v, sh, fs) := arm in
     make_pat [TI "Self"] "__l" arm ++ [TP "=>"] ++ q "Self ::" ++ [TI v] ++
     ctor_args sh fs
-      (map (fun f => ufcs (r_ty (fl_ty f)) clone_tr "clone" [[TI (make_ident "__l" (fl_member f))]]) fs) in
+      (map (fun f => ufcs (r_ty (fl_ty f)) clone_tr "clone" [[TI (make_ident "__l" (MIndex (fl_index f)))]]) fs) in
   let arm_clone_from arm :=
     let '(v, sh, fs) := arm in
     tparen (make_pat [TI "Self"] "__l" arm ++ comma ++ make_pat [TI "Self"] "__r" arm) ++ [TP "=>"] ++
     tbrace (term_by [TP ";"]
               (map (fun f => ufcs (r_ty (fl_ty f)) clone_tr "clone_from"
-                               [[TI (make_ident "__l" (fl_member f))];
-                                [TI (make_ident "__r" (fl_member f))]]) fs)) in
+                               [[TI (make_ident "__l" (MIndex (fl_index f)))];
+                                [TI (make_ident "__r" (MIndex (fl_index f)))]]) fs)) in
   q "fn clone ( & self ) -> Self" ++
   tbrace (match_self vs ++ tbrace (term_by comma (map arm_clone vs))) ++
   q "fn clone_from ( & mut self , __source : & Self )" ++
@@ -181,10 +181,10 @@ Definition ctor_args_m (sh : shape) (vs : list (member * toks)) : toks :=
 Inductive src_kind := SKStruct | SKEnum.
 
 (** `self_of` / `this_of` / `other_of` *)
-Definition place_of (sk : src_kind) (base : string) (m : member) : toks :=
+Definition place_of (sk : src_kind) (base : string) (f : fld) : toks :=
   match sk with
-  | SKStruct => tparen (self_dot (if String.eqb base "self" then base else "__" +++ base) m)
-  | SKEnum => tparen [TP "*"; TI (make_ident ("__" +++ base) m)]
+  | SKStruct => tparen (self_dot (if String.eqb base "self" then base else "__" +++ base) (fl_member f))
+  | SKEnum => tparen [TP "*"; TI (make_ident ("__" +++ base) (MIndex (fl_index f)))]
   end.
 
 (** `Template::apply` *)
@@ -199,10 +199,10 @@ Definition opt_ordering : toks := q ":: core :: option :: Option < :: core :: cm
 
 Definition r_cmp_expr (op : cmpop) (sk : src_kind) (c : cmp_field) : toks :=
   let f := cf_fld c in
-  let m := fl_member f in
+  let m := MIndex (fl_index f) in
   let t := r_ty (fl_ty f) in
-  let this := place_of sk "self" m in
-  let other := place_of sk "other" m in
+  let this := place_of sk "self" f in
+  let other := place_of sk "other" f in
   let call2 (p : toks) (a b : toks) := p ++ tparen (q "&" ++ tparen a ++ q ", &" ++ tparen b) in
   let by_fn (fn_ident : string) (params : toks) (ret : toks) (body : toks) (args : toks) :=
     tbrace ([TI "fn"; TI fn_ident] ++ q "< __T : ? :: core :: marker :: Sized >" ++ params ++ ret ++
@@ -352,7 +352,7 @@ Definition r_cmp_enum (op : cmpop) (vs : list (string * shape * list fld * list 
   end.
 
 Definition r_eq_check (sk : src_kind) (x : fld * eq_check) : toks :=
-  let this := place_of sk "this" (fl_member (fst x)) in
+  let this := place_of sk "this" (fst x) in
   let chk (e : toks) :=
     tbrace (q "fn __assert_eq < T : :: core :: cmp :: Eq + ? :: core :: marker :: Sized > ( __this : & T ) { } __assert_eq" ++ tparen (q "&" ++ tparen e)) in
   match snd x with
@@ -387,7 +387,7 @@ Definition r_body (h : impl_hdr) (b : body) : toks :=
       tbrace (match_self vs ++
               tbrace (term_by comma
                         (map (fun x => make_pat [TI "Self"] "__v" (arm_of x) ++ [TP "=>"] ++
-                                       r_debug_expr (snd x) (fun f => [TI (make_ident "__v" (fl_member f))]))
+                                       r_debug_expr (snd x) (fun f => [TI (make_ident "__v" (MIndex (fl_index f)))]))
                              vs)))
   | BDefaultSelf v => q "fn default ( ) -> Self" ++ tbrace (r_dvalue v)
   | BDefaultCtor path sh vs =>
